@@ -211,6 +211,12 @@ def limit_cases(rng):
     for nk, nops in ((20, 180), (20, 181), (20, 182), (3, 197), (3, 198), (3, 199)):
         s = b'\x00' + b'\x00' + b''.join(push(b'k') for _ in range(nk)) + push_num(nk) + b'\xae' + b'\x61' * nops
         c.append(([], s))
+    # key / signature counts outside 0..20, shallow and deep stacks
+    for cnt in (-1, -3, -21, 21, 255):
+        for depth in (0, 1, 3, 25):
+            pre = b''.join(push(bytes([k + 1])) for k in range(depth))
+            c.append(([], pre + push_num(cnt) + b'\xae'))
+            c.append(([], pre + push_num(cnt) + push(b'k') + b'\x51\xaf'))
     return c
 
 
